@@ -1,0 +1,84 @@
+//go:build verif
+// +build verif
+
+// Verification hook for property C06, second part (build tag "verif"): script
+// sections interleaved with further cast sections.  Adds exported entry
+// points only; calls the package's unexported functions unchanged.
+
+package cmd
+
+import (
+	"bytes"
+	"context"
+	"fmt"
+	"strings"
+)
+
+// VerifC06Sections is VerifC06Script for configurations in which `cast`
+// sections follow script clauses.  clauses[i] is one script clause, or, when
+// isCast[i], the lines of one cast section separated by newlines; the clauses
+// are fed one by one to the real parseScript resp. parseActors (cfg.storyLine
+// recorded after each), then fullText - the same clauses laid out as sections
+// by the caller - goes through the real reader, parseCfg, compileV2 and
+// printSteps.
+func VerifC06Sections(preamble string, clauses []string, isCast []bool, fullText string) (res VerifC06Result) {
+	ctx := context.Background()
+	func() {
+		cfg := newConfig()
+		rd, err := newReaderFromString("<verif>", preamble)
+		if err != nil {
+			res.PreambleErr = err.Error()
+			return
+		}
+		defer rd.close()
+		if err := cfg.parseCfg(ctx, rd); err != nil {
+			res.PreambleErr = err.Error()
+			return
+		}
+		for i, cl := range clauses {
+			var st VerifC06Step
+			func() {
+				defer func() {
+					if r := recover(); r != nil {
+						st.Panic = fmt.Sprintf("%v", r)
+					}
+				}()
+				if isCast[i] {
+					for _, l := range strings.Split(cl, "\n") {
+						if err := cfg.parseActors(strings.TrimSpace(l)); err != nil {
+							st.Err = err.Error()
+							return
+						}
+					}
+				} else if err := cfg.parseScript(cl); err != nil {
+					st.Err = err.Error()
+					return
+				}
+				st.StoryLine = append([]string{}, cfg.storyLine...)
+			}()
+			res.Steps = append(res.Steps, st)
+			if st.Err != "" || st.Panic != "" {
+				break
+			}
+		}
+	}()
+	func() {
+		defer func() {
+			if r := recover(); r != nil {
+				res.FullPanic = fmt.Sprintf("%v", r)
+			}
+		}()
+		cfg, err := verifParseString(fullText, nil)
+		if err != nil {
+			res.FullErr = err.Error()
+			return
+		}
+		res.TempoNs = int64(cfg.tempo)
+		res.StoryLine = append([]string{}, cfg.storyLine...)
+		res.Play, res.NilActor = verifC06ExportPlay(cfg)
+		var pb bytes.Buffer
+		cfg.printSteps(&pb, false)
+		res.Printed = pb.String()
+	}()
+	return res
+}
